@@ -19,7 +19,7 @@ TRUSTED = ["btoi::btoi parses optional sign + decimal digits into i64 (modelled 
 LITERALS = [b"-2", b"-1", b"0", b"1", b"1000", b"4294967296", b"5184000000", b"9223372036854775807", b"abc", b"", b"12x"]
 
 MUTANTS = [
-    {"name": "negative-only-below-minus-one", "file": "src/migration/scan_migration.rs", "old": "    // -2 key not found\n    n < 0\n", "new": "    // -2 key not found\n    n < -1\n", "expect": "C19.D1:"},
+    {"name": "zero-counted-as-no-expire", "file": "src/migration/scan_migration.rs", "old": "    // -2 key not found\n    n < 0\n", "new": "    // -2 key not found\n    n <= 0\n", "expect": "C19.D1:ttl-map:0"},
     {"name": "u32-parse", "file": "src/migration/scan_migration.rs", "old": "let n = match btoi::btoi::<i64>(buf) {", "new": "let n = match btoi::btoi::<i32>(buf) {", "expect": "C19.D1:ttl-map:4294967296"},
     {"name": "gen_restore_resp-bypasses-map", "file": "src/proxy/migration_backend.rs", "old": "        let expire_time = pttl_to_restore_expire_time(pttl);\n\n        let elements = vec![", "new": "        let expire_time = pttl;\n\n        let elements = vec![", "expect": "C19.D2"},
     {"name": "pull-keeps-expired-key", "file": "src/proxy/migration_backend.rs", "old": "Resp::Integer(pttl) if pttl.as_slice() != PTTL_KEY_NOT_FOUND => Ok(Some(pttl)),", "new": "Resp::Integer(pttl) if pttl.as_slice() != b\"-3\" => Ok(Some(pttl)),", "expect": "C19.D3"},
